@@ -1,11 +1,12 @@
 /-
-  XotModel.Model.Bytes — the byte path of `Xot::parse_bytes` (`/repo/src/encoding.rs`, /repo 72a40b0):
+  XotModel.Model.Bytes — the byte path of `Xot::parse_bytes` (`/repo/src/encoding.rs`, as of /repo c3fcdf4):
       parse_bytes(bytes) = parse(&decode(bytes, None))
   Bytes are `List Nat` (every element < 256 when it comes from the driver; the functions are total
   on any list).
 
   Own code of xot, mirrored statement by statement:
-      xmlDeclaration   `encoding::xml_declaration`
+      xmlDeclaration   `encoding::xml_declaration` (as of /repo c3fcdf4: byte order mark removed first, no
+                       length limit, a non-ASCII byte before the first `>` means no declaration)
       encodingOf       `encoding::encoding(data, None)`
       decodeBytes      `encoding::decode(data, None)`
   External crates, modelled AS WRITTEN / AS SPECIFIED and compared with the real crates by the
@@ -79,14 +80,28 @@ def replaceAll (pat rep s : Str) : Str := replaceGo pat rep 0 s
 
 /-! ### `xml_declaration` (xot's own reader of the encoding pseudo-attribute) -/
 
-/-- The `for` loop: of the bytes it is given, the ASCII ones (NUL and bytes ≥ 0x80 skipped) as
-    characters, up to and including the first `>`. -/
-def collectAscii : Bytes → Str
-  | [] => []
+/-- The first statement of `xml_declaration` (/repo 41ece46): a leading byte order mark is removed —
+    UTF-8, then UTF-16 in either byte order (which also takes the first two bytes of the UCS-4 mark
+    FF FE 00 00; the two zero bytes are skipped by the loop), then the two UCS-4 marks that begin
+    with zero bytes — the tests in source order. -/
+def stripDeclBom (data : Bytes) : Bytes :=
+  if [0xEF, 0xBB, 0xBF].isPrefixOf data then data.drop 3
+  else if [0xFF, 0xFE].isPrefixOf data || [0xFE, 0xFF].isPrefixOf data then data.drop 2
+  else if [0, 0, 0xFE, 0xFF].isPrefixOf data || [0, 0, 0xFF, 0xFE].isPrefixOf data then data.drop 4
+  else data
+
+/-- The `for` loop (over ALL the bytes since /repo c3fcdf4): NUL bytes are skipped, a byte ≥ 0x80
+    ends the function with `None`, ASCII bytes are collected as characters up to and including the
+    first `>`. -/
+def collectAscii : Bytes → Option Str
+  | [] => some []
   | b :: bs =>
-    if b == 0 || b ≥ 0x80 then collectAscii bs
-    else if b == 0x3E then ['>']
-    else Char.ofNat b :: collectAscii bs
+    if b == 0 then collectAscii bs
+    else if b ≥ 0x80 then none
+    else if b == 0x3E then some ['>']
+    else match collectAscii bs with
+      | some s => some (Char.ofNat b :: s)
+      | none => none
 
 def encodingWord : Str := ['e', 'n', 'c', 'o', 'd', 'i', 'n', 'g']
 
@@ -122,9 +137,11 @@ def declFromAscii (ascii : Str) : Option Str :=
       if !(rest.head?.any isAsciiWs) then none
       else pseudoAttrs (rest.length + 1) (trimStart rest)
 
-/-- `xml_declaration(data)`: only the first 1024 bytes are looked at. -/
+/-- `xml_declaration(data)`. -/
 def xmlDeclaration (data : Bytes) : Option Str :=
-  declFromAscii (collectAscii (data.take 1024))
+  match collectAscii (stripDeclBom data) with
+  | none => none
+  | some ascii => declFromAscii ascii
 
 /-! ### `xhtmlchardet::detect` on a head of at most five bytes (external crate, as written) -/
 
